@@ -16,7 +16,7 @@ TRUSTED_BASE = [
     'components/requeuer/requeuer.go and tied to them by this check; GoChannel as the fan-out destination is modelled only as "refuses iff closed, one message.Copy() per subscriber" (its own protocol is C04/C05)',
     'strings (topics, UUIDs, metadata keys/values, payloads) are interned injectively by the harness; metadata is compared as a finite map (order-insensitive, nil distinguished from empty in the model comparison, not in the property acceptor)',
     'the handler invocation of FanIn / FanOut / a Requeuer on its own router is not observable (private router) and is inserted by the check; FanOut: the Publish call on the internal GoChannel is observed through the existing gochannel.publish.snapshot stamp',
-    'time: the requeuer delay is checked as a lower bound (destination entered no earlier than Delay after delivery); a message context that is done while the delay runs is generated only with Delay >= 25 ms so that the select has one ready case',
+    'time: the requeuer delay is checked as a lower bound (destination entered no earlier than Delay after delivery); a message context that is done while the delay runs is generated only with Delay = 200 ms and a context cancelled before delivery, so that the select has exactly one ready case',
 ]
 ASSUMPTIONS = [
     'per-message independence of handleMessage instances is structural (C02); the harness runs 1..8 messages in flight through each component, all of them inside the destination Publish call at the same time, and compares every per-message trace',
@@ -281,7 +281,7 @@ def run(ctx):
                 'hand-written envelopes valid in unusual ways (permuted / unknown / duplicate / differently-cased fields, nulls, only a topic, duplicate metadata keys) and 17 kinds of malformed or invalid ones '
                 '(truncated at a random byte, wrong field types, not base64, missing / empty / null topic, non-JSON, trailing garbage); messages: nil / empty / up to 50 metadata keys, empty key, empty value, unicode, '
                 'keys that collide with or are prefixes/extensions of the requeuer key, 30 retries-counter spellings (missing, 0, -1, +7, 007, blanks, hex, MaxInt64, MinInt64, out of range, non-ASCII digits); '
-                'requeuer topic from a constant / a metadata key (also the counter key itself) / always failing, Delay 0 or 25 ms with live or cancelled message context; NewFanIn / NewRequeuer configurations. '
+                'requeuer topic from a constant / a metadata key (also the counter key itself) / always failing, Delay 0 or 200 ms with live or cancelled message context; NewFanIn / NewRequeuer configurations. '
                 'non-trivial = distinct (component, input class, destination behaviour, number of publishes, settlement, configuration, counter class, metadata size).')
     return res
 
